@@ -105,6 +105,7 @@ int main(int argc, char **argv) {
     FILE *out = fopen(outp, "w"); if (!out) { perror(outp); return 2; }
     pid_t pid = fork();
     if (pid == 0) { ptrace(PTRACE_TRACEME, 0, 0, 0); raise(SIGSTOP); execvp(argv[ai], argv + ai); perror("execvp"); _exit(127); }
+    signal(SIGTTOU, SIG_IGN); signal(SIGTTIN, SIG_IGN);   /* the tracer may share a background process group with the tracee: only the tracee is to be stopped */
     int st; waitpid(pid, &st, 0);
     ptrace(PTRACE_SETOPTIONS, pid, 0, PTRACE_O_TRACESYSGOOD | PTRACE_O_EXITKILL);
     struct sigaction sa; memset(&sa, 0, sizeof sa); sa.sa_handler = on_alarm; sigaction(SIGALRM, &sa, NULL);
